@@ -2,19 +2,20 @@
 //! packed flag/coordinate encoding with repeats and short/same deltas resolved".
 //!
 //! `SimpleGlyph::read_dep` is run on a glyph description with a concrete shape (one contour of N
-//! points, no instructions, where REPEAT flags may sit) and symbolic flag bits and coordinate
-//! bytes, and compared with a decoder written from the glyf chapter of the OpenType
+//! points, no instructions, where REPEAT flags sit, which of short vector / same / word each delta
+//! uses) and symbolic sign bits, on-curve bits and coordinate bytes, and compared with a decoder written from the glyf chapter of the OpenType
 //! specification. With every flag bit including REPEAT symbolic the harness ran out of 12 GB
-//! (the flag Vec gets a symbolic length), hence one harness per repeat shape.
+//! (the flag Vec gets a symbolic length), and with the delta kinds symbolic (symbolic stream
+//! positions) 3 points gave no answer in 10 min; hence one harness per shape.
 //!
 //! @funcs glyf::SimpleGlyph::read_dep, SimpleGlyphFlag::{is_repeated, x_is_short, y_is_short, x_short_sign, y_short_sign, x_is_same_or_positive, y_is_same_or_positive, is_on_curve}, BoundingBox::read
-//! @out glyphs of more than 3 points or more than one contour, REPEAT counts above 2, instructions, hostile glyph descriptions (repeat runs that overshoot the point count, coordinate sums beyond 16 bits)
+//! @out glyphs of more than 2 points (3 points: no answer in 10 min per shape on a loaded machine) or more than one contour, REPEAT counts above 1, instructions, hostile glyph descriptions (repeat runs that overshoot the point count, coordinate sums beyond 16 bits)
 
 use crate::util::*;
 use allsorts::binary::read::ReadScope;
 use allsorts::tables::glyf::SimpleGlyph;
 
-const N: usize = 3;
+const N: usize = 2;
 const HDR: usize = 8 + 2 + 2;
 const STREAM: usize = (N + 1) + 2 * N + 2 * N;
 
@@ -25,18 +26,31 @@ const REPEAT: u8 = 0x08;
 const X_SAME_OR_POS: u8 = 0x10;
 const Y_SAME_OR_POS: u8 = 0x20;
 
+const SHORT: u8 = 0;
+const SAME: u8 = 1;
+const WORD: u8 = 2;
+
+/// Flag bits of one coordinate of the given kind; the sign of a short vector is symbolic.
+fn kind_bits(kind: u8, short: u8, same: u8) -> u8 {
+    match kind {
+        SHORT => short | if kani::any() { same } else { 0 },
+        SAME => same,
+        _ => 0,
+    }
+}
+
 /// One coordinate stream per the specification: short vector = one byte whose sign is the
 /// same-or-positive bit; otherwise "same" (delta 0) when that bit is set, else a signed word.
-fn deltas(buf: &[u8], at: &mut usize, flags: &[u8; N], short: u8, same: u8) -> [i32; N] {
+/// The kind of each delta is concrete, so the stream positions are too.
+fn deltas(buf: &[u8], at: &mut usize, flags: &[u8; N], kinds: [u8; N], same: u8) -> [i32; N] {
     let mut out = [0i32; N];
     let mut i = 0;
     while i < N {
-        let f = flags[i];
-        if f & short != 0 {
+        if kinds[i] == SHORT {
             let v = buf[*at] as i32;
             *at += 1;
-            out[i] = if f & same != 0 { v } else { -v };
-        } else if f & same == 0 {
+            out[i] = if flags[i] & same != 0 { v } else { -v };
+        } else if kinds[i] == WORD {
             out[i] = be16(buf, *at) as i16 as i32;
             *at += 2;
         }
@@ -45,8 +59,11 @@ fn deltas(buf: &[u8], at: &mut usize, flags: &[u8; N], short: u8, same: u8) -> [
     out
 }
 
-/// `repeat_at`: index of the logical flag that carries REPEAT (N = none); `count`: its repeat byte.
-fn packed_points(repeat_at: usize, count: u8) {
+/// `kinds`: how the x and y delta of each of the N points is stored (this fixes the layout of
+/// the streams; on-curve bits, signs and all data bytes stay symbolic). `repeat_at`: index of
+/// the logical flag that carries REPEAT (N = none) and `count` its repeat byte; the points a
+/// repeated flag covers share its kinds.
+fn packed_points(kinds: [(u8, u8); N], repeat_at: usize, count: u8) {
     let mut buf = [0u8; HDR + STREAM];
     let bbox: [u8; 8] = kani::any();
     let stream: [u8; STREAM] = kani::any();
@@ -61,17 +78,17 @@ fn packed_points(repeat_at: usize, count: u8) {
         buf[HDR + i] = stream[i];
         i += 1;
     }
-    // expand the flags as the specification describes, fixing where REPEAT sits
+    // write the flag bytes, expanding them as the specification describes
     let mut flags = [0u8; N];
     let mut at = HDR;
     let mut n = 0;
     while n < N {
-        let f = buf[at];
-        at += 1;
+        let on: u8 = if kani::any() { ON_CURVE } else { 0 };
+        let f = on | kind_bits(kinds[n].0, X_SHORT, X_SAME_OR_POS) | kind_bits(kinds[n].1, Y_SHORT, Y_SAME_OR_POS);
         if n == repeat_at {
-            kani::assume(f & REPEAT != 0);
-            kani::assume(buf[at] == count);
-            at += 1;
+            buf[at] = f | REPEAT;
+            buf[at + 1] = count;
+            at += 2;
             let mut k = 0;
             while k <= count as usize {
                 flags[n] = f;
@@ -79,13 +96,22 @@ fn packed_points(repeat_at: usize, count: u8) {
                 k += 1;
             }
         } else {
-            kani::assume(f & REPEAT == 0);
+            buf[at] = f;
+            at += 1;
             flags[n] = f;
             n += 1;
         }
     }
-    let dx = deltas(&buf, &mut at, &flags, X_SHORT, X_SAME_OR_POS);
-    let dy = deltas(&buf, &mut at, &flags, Y_SHORT, Y_SAME_OR_POS);
+    let mut xk = [0u8; N];
+    let mut yk = [0u8; N];
+    i = 0;
+    while i < N {
+        xk[i] = kinds[i].0;
+        yk[i] = kinds[i].1;
+        i += 1;
+    }
+    let dx = deltas(&buf, &mut at, &flags, xk, X_SAME_OR_POS);
+    let dy = deltas(&buf, &mut at, &flags, yk, Y_SAME_OR_POS);
     // keep the running sums inside the 16-bit coordinate space (hostile sums: C01)
     let (mut x, mut y) = (0i32, 0i32);
     let mut want = [(0i32, 0i32); N];
@@ -110,50 +136,56 @@ fn packed_points(repeat_at: usize, count: u8) {
         assert!(flag.is_on_curve() == (flags[i] & ON_CURVE != 0), "on-curve flag");
         i += 1;
     }
-    kani::cover!(flags[1] & X_SHORT != 0 && flags[1] & X_SAME_OR_POS == 0, "negative short x delta");
-    kani::cover!(flags[2] & (Y_SHORT | Y_SAME_OR_POS) == 0, "word y delta");
-    kani::cover!(flags[0] & (X_SHORT | X_SAME_OR_POS) == X_SAME_OR_POS, "x same as previous");
+    kani::cover!(want[N - 1].0 != 0 && want[N - 1].1 != 0, "last point off both axes");
+    kani::cover!(flags[0] & ON_CURVE == 0 && flags[N - 1] & ON_CURVE != 0, "mixed on/off curve");
     std::mem::forget(glyph);
 }
 
-/// Three points, no REPEAT flags.
-// @bound one contour of 3 points, no instructions; the 3 flag bytes (REPEAT clear) and all coordinate bytes symbolic, running coordinate sums inside the 16-bit range
+/// Every delta a short vector (one byte + sign bit).
+// @bound one contour of 2 points, no instructions, all deltas short vectors; sign bits, on-curve bits and all data bytes symbolic, running coordinate sums inside the 16-bit range
 #[kani::proof]
-#[kani::unwind(20)]
-fn c16_packed_points_no_repeat() {
-    packed_points(N, 0);
+#[kani::unwind(16)]
+fn c16_packed_points_short_vectors() {
+    packed_points([(SHORT, SHORT); N], N, 0);
 }
 
-/// First flag repeated once: flags are f, f, g.
-// @bound as above with the first flag carrying REPEAT with count 1
+/// Every delta a signed word.
+// @bound as above with all deltas 16-bit words
 #[kani::proof]
-#[kani::unwind(20)]
-fn c16_packed_points_repeat_first_once() {
-    packed_points(0, 1);
+#[kani::unwind(16)]
+fn c16_packed_points_words() {
+    packed_points([(WORD, WORD); N], N, 0);
 }
 
-/// First flag repeated twice: flags are f, f, f.
-// @bound as above with the first flag carrying REPEAT with count 2
+/// Mixed: (short, same), (same, word).
+// @bound as above with point 0 = (short x, same y), point 1 = (same x, word y)
 #[kani::proof]
-#[kani::unwind(20)]
-fn c16_packed_points_repeat_first_twice() {
-    packed_points(0, 2);
+#[kani::unwind(16)]
+fn c16_packed_points_mixed() {
+    packed_points([(SHORT, SAME), (SAME, WORD)], N, 0);
 }
 
-/// Second flag repeated once: flags are f, g, g.
+/// The other mixed shape: (word, short), (short, same).
 // @tier thorough
-// @bound as above with the second flag carrying REPEAT with count 1
+// @bound as above with point 0 = (word x, short y), point 1 = (short x, same y)
 #[kani::proof]
-#[kani::unwind(20)]
-fn c16_packed_points_repeat_second_once() {
-    packed_points(1, 1);
+#[kani::unwind(16)]
+fn c16_packed_points_mixed2() {
+    packed_points([(WORD, SHORT), (SHORT, SAME)], N, 0);
+}
+
+/// First flag repeated once: both points share the flag byte.
+// @bound as above with the first flag (short x, word y) carrying REPEAT with count 1
+#[kani::proof]
+#[kani::unwind(16)]
+fn c16_packed_points_repeat_once() {
+    packed_points([(SHORT, WORD), (SHORT, WORD)], 0, 1);
 }
 
 /// A REPEAT flag with a zero count is the flag alone.
-// @tier thorough
 // @bound as above with the last flag carrying REPEAT with count 0
 #[kani::proof]
-#[kani::unwind(20)]
+#[kani::unwind(16)]
 fn c16_packed_points_repeat_zero() {
-    packed_points(2, 0);
+    packed_points([(SHORT, SHORT), (WORD, WORD)], 1, 0);
 }
